@@ -1,7 +1,7 @@
 //! C12 — the control-flow graph of every definition is well formed: every skeleton up to a
 //! statement bound, as function and as template, checked after `into_cfg` and again after
 //! `into_ssa` through public accessors.
-use super::cfgcheck::{check_wellformed, edges_of, marker_def};
+use super::cfgcheck::{check_wellformed, edges_of, marker_def, marker_def_for};
 use crate::infra::{par_each, Run, Violation};
 use crate::space::prog::print_def;
 use crate::space::skel::{enumerate, Sk, SkelOpts};
@@ -23,8 +23,9 @@ pub fn opts(sweep: &str, max_stmts: usize) -> SkelOpts {
     }
 }
 
-pub fn check_program(skel: &[Sk], is_function: bool, case: &Value) -> (Vec<Violation>, bool) {
-    let def = marker_def(skel, is_function, Vec::new());
+pub fn check_program(skel: &[Sk], is_function: bool, prologue: bool, for_form: usize, case: &Value) -> (Vec<Violation>, bool) {
+    let fors: usize = skel.iter().map(|s| s.fors()).sum();
+    let def = marker_def_for(skel, is_function, Vec::new(), prologue, vec![for_form; fors]);
     let printed = print_def(&def);
     let mut out = Vec::new();
     let machinery = |what: &str, detail: String| Violation {
@@ -99,7 +100,7 @@ pub fn run(run: &Run) {
     let sweeps = [("full", run.tier.pick(4, 5)), ("deep", run.tier.pick(7, 8))];
     run.set_rule(&format!(
         "every statement-list skeleton over atom|if|if-else|while|for|block, nesting <= 3, atoms = \
-         unique markers, each as function and as template; sweep `full` (braced, empty and bare \
+         unique markers, each as function and as template, with a `var x = 0;` prologue and without (x a parameter, so a loop or branch can be the very first statement); sweep `full` (braced, empty and bare \
          bodies, nested blocks) <= {} statements, sweep `deep` (braced non-empty bodies) <= {} \
          statements; non-trivial = skeleton has at least one branch or loop and lifts",
         sweeps[0].1, sweeps[1].1
@@ -109,9 +110,20 @@ pub fn run(run: &Run) {
         run.set_extra(&format!("skeletons_{name}"), json!(skels.len()));
         run.set_extra(&format!("max_statements_{name}"), json!(max));
         par_each(&skels, |i, skel| {
-            for is_function in [true, false] {
-                let case = json!({"kind": "skeleton", "sweep": name, "max_stmts": max, "index": i, "function": is_function});
-                let (violations, lifted) = check_program(skel, is_function, &case);
+            let fors: usize = skel.iter().map(|s| s.fors()).sum();
+            for (is_function, prologue, for_form) in [
+                (true, true, 0),
+                (false, true, 0),
+                (true, false, 0),
+                (false, false, 0),
+                (true, true, 1),
+                (false, false, 1),
+            ] {
+                if for_form == 1 && fors == 0 {
+                    continue;
+                }
+                let case = json!({"kind": "skeleton", "sweep": name, "max_stmts": max, "index": i, "function": is_function, "prologue": prologue, "for_form": for_form});
+                let (violations, lifted) = check_program(skel, is_function, prologue, for_form, &case);
                 run.eval(1);
                 let conds: usize = skel.iter().map(|s| s.conds()).sum();
                 if lifted && conds > 0 {
@@ -121,7 +133,7 @@ pub fn run(run: &Run) {
                     let loops: usize = skel.iter().map(|s| s.loops()).sum();
                     run.outcome(&format!("conds={conds},loops={loops}"));
                     if run.want_sample() && conds >= 2 {
-                        let def = marker_def(skel, is_function, Vec::new());
+                        let def = marker_def(skel, is_function, Vec::new(), prologue);
                         run.sample(json!({"program": print_def(&def).text}));
                     }
                 }
@@ -138,7 +150,7 @@ pub fn replay(case: &Value) -> Vec<Violation> {
     let sweep = case["sweep"].as_str().unwrap_or("full");
     let skels = enumerate(opts(sweep, max));
     match skels.get(index) {
-        Some(skel) => check_program(skel, is_function, case).0,
+        Some(skel) => check_program(skel, is_function, case["prologue"].as_bool().unwrap_or(true), case["for_form"].as_u64().unwrap_or(0) as usize, case).0,
         None => Vec::new(),
     }
 }
